@@ -71,6 +71,8 @@ type FnCtx struct {
 	isInit   bool
 	covers   []*Obligation
 	resultNames []string
+	returnReach []Term
+	facts       []Term
 }
 
 func (fc *FnCtx) fresh(prefix, sort string) Term {
@@ -88,6 +90,7 @@ func (fc *FnCtx) assumeRaw(t Term) {
 }
 
 func (fc *FnCtx) assume(t Term) {
+	fc.flushFacts()
 	if t == "true" {
 		return
 	}
@@ -126,6 +129,7 @@ func (fc *FnCtx) pos() token.Position {
 }
 
 func (fc *FnCtx) oblige(kind string, goal Term, text string, tags []string, label string) {
+	fc.flushFacts()
 	if goal == "true" {
 		return
 	}
@@ -150,7 +154,19 @@ func (fc *FnCtx) obligeSafety(kind string, goal Term, text string) {
 // environment for contract expressions at the current program point
 
 func (fc *FnCtx) envAt(st *State, oldEnv *Env, lookup func(string) (EV, bool)) *Env {
-	return &Env{w: fc.w, pkg: fc.pkg, vars: map[string]EV{}, st: st, old: oldEnv, alloc0: fc.alloc0, lookup: lookup}
+	return &Env{w: fc.w, pkg: fc.pkg, vars: map[string]EV{}, st: st, old: oldEnv, alloc0: fc.alloc0, lookup: lookup, facts: &fc.facts}
+}
+
+// flushFacts assumes the heap well-formedness facts collected while evaluating contract expressions.
+func (fc *FnCtx) flushFacts() {
+	seen := map[string]bool{}
+	for _, f := range fc.facts {
+		if !seen[f] {
+			seen[f] = true
+			fc.assumeRaw(f)
+		}
+	}
+	fc.facts = nil
 }
 
 func (fc *FnCtx) entryEnv() *Env {
@@ -353,13 +369,15 @@ func (fc *FnCtx) typeInv(x Term, t types.Type, alloc Term) Term {
 	switch u := t.Underlying().(type) {
 	case *types.Pointer:
 		return and(app("<", x, alloc), implies(app("<", x, "0"), app("<", app("embroot", x), alloc)))
-	case *types.Map, *types.Interface, *types.Signature:
+	case *types.Signature:
+		return app("<", x, alloc)
+	case *types.Map, *types.Interface:
 		return and(app("<=", "0", x), app("<", x, alloc))
 	case *types.Slice:
 		_ = u
-		return and(app("<=", "0", app("sarr", x)), app("<", app("sarr", x), alloc), app("<=", "0", app("soff", x)),
-			app("<=", "0", app("slen_", x)), app("<=", app("slen_", x), app("scap", x)), app("<=", app("scap", x), "281474976710656"),
-			implies(eq(app("sarr", x), "0"), eq(app("scap", x), "0")))
+		return and(app("<=", "0", sarrOf(x)), app("<", sarrOf(x), alloc), app("<=", "0", soffOf(x)),
+			app("<=", "0", slenOf(x)), app("<=", slenOf(x), scapOf(x)), app("<=", scapOf(x), "281474976710656"),
+			implies(eq(sarrOf(x), "0"), eq(scapOf(x), "0")))
 	}
 	return "true"
 }
@@ -605,6 +623,15 @@ func (fc *FnCtx) zeroInit(r Term, t types.Type) {
 	}
 }
 
+// structToHeap writes a struct value into the (fresh, temporary) object r without frame checks, so that contract
+// expressions can address its fields.
+func (fc *FnCtx) structToHeap(r Term, t types.Type, sv StructVal) {
+	st := t.Underlying().(*types.Struct)
+	for i := 0; i < st.NumFields(); i++ {
+		fc.storeField(r, t, i, sv.f[i], false)
+	}
+}
+
 func isOpaqueLib(t types.Type) bool {
 	n, ok := t.(*types.Named)
 	if !ok {
@@ -793,9 +820,9 @@ func (fc *FnCtx) binop(x *ssa.BinOp) Val {
 		} else if s == SSlice {
 			// only comparison with nil is legal Go
 			if c, ok := x.Y.(*ssa.Const); ok && c.Value == nil {
-				t = eq(app("sarr", a), "0")
+				t = eq(sarrOf(a), "0")
 			} else if c, ok := x.X.(*ssa.Const); ok && c.Value == nil {
-				t = eq(app("sarr", b), "0")
+				t = eq(sarrOf(b), "0")
 			} else {
 				unsupported("slice comparison")
 			}
@@ -948,9 +975,9 @@ func (fc *FnCtx) indexAddr(x *ssa.IndexAddr) Val {
 	switch u := x.X.Type().Underlying().(type) {
 	case *types.Slice:
 		s := fc.term(x.X)
-		fc.obligeSafety("idx", and(app("<=", "0", i), app("<", i, app("slen_", s))), "slice index in range")
+		fc.obligeSafety("idx", and(app("<=", "0", i), app("<", i, slenOf(s))), "slice index in range")
 		key, _ := fc.w.elemKey(u.Elem())
-		return AddrElem{key: key, arr: app("sarr", s), idx: fc.define("ix", SInt, app("+", app("soff", s), i))}
+		return AddrElem{key: key, arr: sarrOf(s), idx: sidx(soffOf(s), i)}
 	case *types.Pointer:
 		arr, ok := u.Elem().Underlying().(*types.Array)
 		if !ok {
@@ -1024,10 +1051,10 @@ func (fc *FnCtx) slice(x *ssa.Slice) Val {
 		if x.High != nil {
 			hi = fc.term(x.High)
 		} else {
-			hi = app("slen_", s)
+			hi = slenOf(s)
 		}
-		fc.obligeSafety("slice", and(app("<=", "0", lo), app("<=", lo, hi), app("<=", hi, app("scap", s))), "slice bounds")
-		return fc.define("sl", SSlice, app("mkslice", app("sarr", s), app("+", app("soff", s), lo), app("-", hi, lo), app("-", app("scap", s), lo)))
+		fc.obligeSafety("slice", and(app("<=", "0", lo), app("<=", lo, hi), app("<=", hi, scapOf(s))), "slice bounds")
+		return app("mkslice", sarrOf(s), plus(soffOf(s), lo), minus(hi, lo), minus(scapOf(s), lo))
 	case *types.Pointer:
 		arr, ok := u.Elem().Underlying().(*types.Array)
 		if !ok {
@@ -1041,7 +1068,7 @@ func (fc *FnCtx) slice(x *ssa.Slice) Val {
 			hi = n
 		}
 		fc.obligeSafety("slice", and(app("<=", "0", lo), app("<=", lo, hi), app("<=", hi, n)), "array slice bounds")
-		return fc.define("sl", SSlice, app("mkslice", ref, lo, app("-", hi, lo), app("-", n, lo)))
+		return app("mkslice", ref, lo, minus(hi, lo), minus(n, lo))
 	}
 	unsupported("slice of %s", x.X.Type())
 	return nil
@@ -1136,8 +1163,32 @@ func (fc *FnCtx) makeInterface(x *ssa.MakeInterface) Val {
 func (fc *FnCtx) typeAssert(x *ssa.TypeAssert) Val {
 	v := fc.term(x.X)
 	var okT Term
-	if _, isIface := x.AssertedType.Underlying().(*types.Interface); isIface {
-		okT = and(not(eq(v, "0")), app("implements", app("dyntype", v), strconv.Itoa(fc.w.typeID("iface:"+shortenPaths(x.AssertedType.String())))))
+	if it, isIface := x.AssertedType.Underlying().(*types.Interface); isIface {
+		iid := strconv.Itoa(fc.w.typeID("iface:" + shortenPaths(x.AssertedType.String())))
+		okT = and(not(eq(v, "0")), app("implements", app("dyntype", v), iid))
+		// method-set facts for the named types of the verified packages (decided by go/types)
+		for _, name := range []string{"errors", "url", "canonicalizer"} {
+			pk := fc.w.typePkgs[name]
+			if pk == nil {
+				continue
+			}
+			for _, n := range pk.Scope().Names() {
+				tn, ok := pk.Scope().Lookup(n).(*types.TypeName)
+				if !ok {
+					continue
+				}
+				if _, isI := tn.Type().Underlying().(*types.Interface); isI {
+					continue
+				}
+				for _, T := range []types.Type{tn.Type(), types.NewPointer(tn.Type())} {
+					b := "false"
+					if types.Implements(T, it) {
+						b = "true"
+					}
+					fc.assumeRaw(eq(app("implements", strconv.Itoa(fc.w.typeID(typeName(T))), iid), b))
+				}
+			}
+		}
 	} else {
 		okT = and(not(eq(v, "0")), eq(app("dyntype", v), strconv.Itoa(fc.w.typeID(typeName(x.AssertedType)))))
 	}
@@ -1187,11 +1238,11 @@ func (fc *FnCtx) convert(x *ssa.Convert) Val {
 		s := fc.term(x.X)
 		et := from.Underlying().(*types.Slice).Elem()
 		key, _ := fc.w.elemKey(et)
-		content := sel(fc.st.Heap(key), app("sarr", s))
+		content := sel(fc.st.Heap(key), sarrOf(s))
 		if b, ok := et.Underlying().(*types.Basic); ok && b.Kind() == types.Uint8 {
-			return fc.define("sob", SStr, app("str_of_bytes", content, app("soff", s), app("slen_", s)))
+			return fc.define("sob", SStr, app("str_of_bytes", content, soffOf(s), slenOf(s)))
 		}
-		return fc.define("sor", SStr, app("str_of_runes", content, app("soff", s), app("slen_", s)))
+		return fc.define("sor", SStr, app("str_of_runes", content, soffOf(s), slenOf(s)))
 	case fs == SInt && ts == SStr:
 		return app("utf8", fc.term(x.X))
 	case fs == SInt && ts == SReal:
